@@ -241,13 +241,13 @@ mut("M76", "client.go", "	if err := validateLine(from); err != nil {\n		return e
 mut("M77", "client.go", "	if ok, _ := c.Extension(\"STARTTLS\"); !ok {\n		return errors.New(\"smtp: server doesn't support STARTTLS\")\n	}\n", "", ["C10"], "starttls-only-if-offered", note="initStartTLS continues without the extension")
 # ---------------------------------------------------------------- refactorings (must pass)
 mut("R01", "data.go", "func (r *dataReader) Read(b []byte) (n int, err error) {", "func (r *dataReader) Read(b []byte) (n int, err error) {\n	_ = 0", ["C01", "C02", "C06", "C07"], kind="refactor", note="no-op statement inserted")
-mut("R02", "data.go", """		if r.n <= 0 {
+mut("R02", "data.go", """		if r.n <= 0 && !r.skipEndMarker() {
 			return 0, ErrDataTooLarge
 		}
 		if int64(len(b)) > r.n {
 			b = b[0:r.n]
 		}""", """		budget := r.n
-		if budget <= 0 {
+		if budget <= 0 && !r.skipEndMarker() {
 			return 0, ErrDataTooLarge
 		}
 		if int64(len(b)) > budget {
@@ -255,6 +255,9 @@ mut("R02", "data.go", """		if r.n <= 0 {
 		}""", ["C01", "C06"], kind="refactor", note="r.n hoisted into a local")
 mut("R04", "conn.go", "	if c.helo == \"\" {\n		c.writeResponse(502, EnhancedCode{5, 5, 1}, \"Please introduce yourself first.\")\n		return\n	}\n	if c.bdatPipe != nil {\n		c.writeResponse(502, EnhancedCode{5, 5, 1}, \"MAIL not allowed during message transfer\")\n		return\n	}", "	if c.bdatPipe != nil {\n		c.writeResponse(502, EnhancedCode{5, 5, 1}, \"MAIL not allowed during message transfer\")\n		return\n	}\n	if c.helo == \"\" {\n		c.writeResponse(502, EnhancedCode{5, 5, 1}, \"Please introduce yourself first.\")\n		return\n	}", ["C03", "C04"], kind="refactor", note="the two independent guards of handleMail swapped")
 mut("R05", "conn.go", "	args := strings.Fields(arg)\n	if len(args) == 0 {\n		c.writeResponse(501, EnhancedCode{5, 5, 4}, \"Missing chunk size argument\")", "	srv := c.server\n	_ = srv\n	args := strings.Fields(arg)\n	if len(args) == 0 {\n		c.writeResponse(501, EnhancedCode{5, 5, 4}, \"Missing chunk size argument\")", ["C05", "C07"], kind="refactor", note="c.server hoisted into a local in handleBdat")
+mut("R06", "conn.go", "	if !c.fromReceived {\n		c.writeResponse(502, EnhancedCode{5, 5, 1}, \"Missing MAIL FROM command.\")\n		return\n	}\n	if c.bdatPipe != nil {\n		c.writeResponse(502, EnhancedCode{5, 5, 1}, \"RCPT not allowed during message transfer\")\n		return\n	}", "	if c.bdatPipe != nil {\n		c.writeResponse(502, EnhancedCode{5, 5, 1}, \"RCPT not allowed during message transfer\")\n		return\n	}\n	if !c.fromReceived {\n		c.writeResponse(502, EnhancedCode{5, 5, 1}, \"Missing MAIL FROM command.\")\n		return\n	}", ["C03", "C11"], kind="refactor", note="the two independent guards of handleRcpt swapped")
+mut("R07", "server.go", "	var err error\n	s.locker.Lock()\n	for _, l := range s.listeners {\n		if lerr := l.Close(); lerr != nil && err == nil {\n			err = lerr\n		}\n	}\n\n	for conn := range s.conns {", "	var err error\n	s.locker.Lock()\n	ls := s.listeners\n	for _, l := range ls {\n		if lerr := l.Close(); lerr != nil && err == nil {\n			err = lerr\n		}\n	}\n\n	for conn := range s.conns {", ["C20"], kind="refactor", note="listeners hoisted into a local under the lock")
+mut("R08", "client.go", "	if d.closed {\n		return fmt.Errorf(\"smtp: data writer closed twice\")\n	}", "	if wasClosed := d.closed; wasClosed {\n		return fmt.Errorf(\"smtp: data writer closed twice\")\n	}", ["C16", "C18"], kind="refactor", note="closed flag read into a local first")
 mut("R03", "lengthlimit_reader.go", """	for _, chr := range b[:n] {
 		if chr == '\\n' {""", """	buf := b[:n]
 	for _, chr := range buf {
